@@ -175,6 +175,28 @@ fn replay_file(id: &str, path: &str) -> Result<Verdict, String> {
     }
 }
 
+/// Runs `f` on a helper thread and waits at most `secs` for it.  A call that does not come back
+/// cannot be stopped from inside the process: the run then ends at once as INCONCLUSIVE (exit 2),
+/// with `what` (the case) printed — never as a violation, never as a hang.
+pub fn run_with_deadline<T: Send + 'static, F: FnOnce() -> T + Send + 'static>(secs: u64, what: String, f: F) -> T {
+    let (tx, rx) = std::sync::mpsc::channel();
+    std::thread::Builder::new()
+        .stack_size(256 << 20)
+        .spawn(move || {
+            let r = std::panic::catch_unwind(std::panic::AssertUnwindSafe(f));
+            let _ = tx.send(r);
+        })
+        .unwrap();
+    match rx.recv_timeout(std::time::Duration::from_secs(secs)) {
+        Ok(Ok(v)) => v,
+        Ok(Err(p)) => std::panic::resume_unwind(p),
+        Err(_) => {
+            out!("INCONCLUSIVE: a call into the engine did not return within {} s: {}", secs, what);
+            std::process::exit(2);
+        }
+    }
+}
+
 pub fn main_entry() {
     let args: Vec<String> = std::env::args().collect();
     if args.len() < 3 {
